@@ -623,7 +623,7 @@ def rule_never_freed(fx, col):
     for b in fx.lib.bodies:
         for bb, t in b.calls():
             c = t['callee']
-            if 'debt::list::Node' in ' '.join(c.get('args', [])) and c.get('krate') in ('alloc', 'core', 'std') and 'boxed::Box' in c.get('path', ''):
+            if 'debt::list::Node' in (c.get('pretty') or '') and c.get('krate') in ('alloc', 'core', 'std') and ('boxed::Box' in c.get('path', '') or 'boxed::Box<' in (c.get('self_ty') or '')):
                 nm = c.get('name')
                 if nm in ('default', 'new', 'leak'):
                     n_ctor += 1 if nm == 'leak' else 0
